@@ -70,6 +70,16 @@ class BddGen:
                 self.q("size %s" % a)
                 if kind == "cube" or k <= 12:
                     self.q("paths %s" % a)
+        # literals near the limits of the i32 literal type, mixed with small ones, in every listing order
+        for _ in range(4):
+            big = r.choice([1 << 15, (1 << 16) + 1, 1 << 30, (1 << 30) + 7, (1 << 31) - 1, 2147483600 + r.randrange(40)])
+            small = r.sample(range(1, hi + 1), r.randrange(1, 4))
+            lits = [v if r.random() < 0.5 else -v for v in small + [big]]
+            r.shuffle(lits)
+            kk = self.reg("%s %d %s" % (r.choice(["cube", "clause"]), len(lits), " ".join(map(str, lits))), None, False)
+            self.live.append(kk)
+            self.q("onesat %s" % self.a(kk, False))
+            self.q("satcount %s %d" % (self.a(kk, r.random() < 0.5), r.choice([64, 128, 130])))
         self.classes["family:wide"] += 1
 
     # ---- bookkeeping
@@ -241,7 +251,7 @@ class BddGen:
         self.reg("not %s" % self.a(*f), None if t is None else self.c.neg(t), t is not None)
 
     def op_many(self):
-        k = self.rng.choice([0, 1, 2, 3, 4, 6])
+        k = self.rng.choice([0, 1, 2, 3, 4, 5, 6, 7, 8, 11, 13, 15, 19])
         disj = self.rng.random() < 0.5
         args = [self.pick() for _ in range(k)]
         vs = [self.val(*x) if x[0] < len(self.tt) else None for x in args]
@@ -550,7 +560,7 @@ class BddGen:
             self.q("desc %d %s" % (len(roots), " ".join(self.a(*x) for x in roots)))
         elif kind == "satcount":
             f = self.pick()
-            n = self.rng.choice([self.n, self.n, self.n + 1, self.n + 3, 64, 70, max(0, self.n - 1)])
+            n = self.rng.choice([self.n, self.n, self.n + 1, self.n + 3, 63, 64, 65, 70, 127, 128, 129, 200, 1000, max(0, self.n - 1)])
             self.q("satcount %s %d" % (self.a(*f), n))
         elif kind == "onesat":
             self.q("onesat %s" % self.a(*self.pick()))
